@@ -98,7 +98,7 @@ def fresh_poly(ex, n, name):
     es = []
     for i in range(n):
         v = ex.new_input('%s%d' % (name, i), 'u32')
-        ex.solver.add(z3.ULT(v.t, Q))
+        ex.assume(z3.ULT(v.t, Q))
         es.append(Agg('Felt', None, (v,)))
     return Agg('Polynomial', None, (Seq('vec', es),))
 
@@ -127,7 +127,7 @@ def sk_overrides(ex, N):
 
 
 # ---------------------------------------------------------------------------------------------- from_bytes -> to_bytes
-def parse_scen(what, N, L, fixed=None, chunk=7, deadline_s=None, tag=''):
+def parse_scen(what, N, L, fixed=None, chunk=2, deadline_s=None, tag=''):
     """T::<N>::from_bytes(b), |b| = L, all bytes symbolic (fixed: {index: value}). Every path must end in Ok/Err without
     a violable assertion; on every Ok path to_bytes(x) must reproduce b bit for bit (queried per `chunk` bytes)."""
     t_end = time.time() + deadline_s if deadline_s else None
@@ -188,8 +188,9 @@ def _parse_scen(what, N, L, fixed, chunk, t_end, tag, sites):
                 if not diffs:
                     continue
                 out['checks'] += 1
-                ok, m = ex.check(z3.Or(*diffs))
+                ok, m = ex.check_local(z3.Or(*diffs))
                 if ok:
+                    m = ex.check(z3.Or(*diffs))[1]      # full model for the report
                     i_ = inp(m); o_ = [ex.eval_int(m, b) for b in by]
                     d = [i for i in range(L) if i_[i] != o_[i]]
                     out['bad'].append({'kind': 'accepted input is not the canonical encoding of the decoded object', 'input': i_,
